@@ -18,6 +18,8 @@ Section Lists.
   Proof. unfold len; cbn [length]; lia. Qed.
   Lemma len_app l1 l2 : len (l1 ++ l2) = len l1 + len l2.
   Proof. unfold len; rewrite app_length; lia. Qed.
+  Lemma len_snoc l (a : A) : len (l ++ [a]) = len l + 1.
+  Proof. rewrite len_app, len_cons, len_nil. lia. Qed.
   Lemma is_nil_len l : is_nil l = true <-> len l = 0.
   Proof. destruct l; cbn [is_nil]; [rewrite len_nil | rewrite len_cons; pose proof (len_nonneg l)]; split; (lia || discriminate || reflexivity). Qed.
   Lemma is_nil_false_len l : is_nil l = false <-> 0 < len l.
@@ -99,7 +101,8 @@ Section SenderProofs.
     destruct j as [|j]; cbn [pieces nth_error].
     - cbn [Z.of_nat]. rewrite Z.mul_0_l, drop_0, Z.add_0_r. reflexivity.
     - rewrite IH by lia. rewrite drop_drop by lia.
-      do 3 f_equal; [lia | f_equal; lia].
+      replace (i + 1 + Z.of_nat j) with (i + Z.of_nat (S j)) by lia.
+      replace (F + Z.of_nat j * F) with (Z.of_nat (S j) * F) by lia. reflexivity.
   Qed.
 
   Lemma pieces_concat n g m : forall k i rest,
@@ -167,8 +170,10 @@ Section SenderProofs.
                      has_frag (p_flags f) = true) (split F g n).
   Proof.
     intros Ht. rewrite split_pieces by assumption. apply pieces_Forall.
-    intros i d Hd. cbn. repeat split; try assumption.
-    unfold has_frag; cbn. rewrite !Z.lor_spec. apply orb_true_r.
+    intros i d Hd. unfold mkfrag, has_frag, set_pos, set_len, set_group.
+    cbn [p_data p_id p_job p_dev p_tags p_flags f_group f_len f_bits f_pos].
+    repeat split; try assumption.
+    rewrite !Z.lor_spec. apply orb_true_r.
   Qed.
 
   (* fragment i is empty exactly when the payload ends at or before i*F *)
@@ -186,3 +191,1300 @@ Section SenderProofs.
     apply Z.lt_succ_r. apply Z.div_lt_upper_bound; lia.
   Qed.
 End SenderProofs.
+
+(* write = the split, stamped and queued, whenever the queue has room for every fragment *)
+Section WriteProofs.
+  Context {A : Type}.
+  Variables F cap : Z.
+  Hypothesis HF : 0 < F.
+
+  Theorem write_is_split (w : bool) (local qlen g : Z) (n : packet A) :
+    0 <= p_tags n -> F < size n ->
+    (w = true \/ qlen + (nfrag F n - 1) < cap) ->
+    nfrag F n <= cap - qlen ->
+    write F cap w local qlen g n = (0, map (stamp local) (split F g n)).
+  Proof.
+    intros Ht Hs Hw Hroom. unfold write, write_plan.
+    replace ((F <=? 0) || (size n <=? F)) with false by lia.
+    pose proof (Z.mul_succ_div_gt (size n) F HF) as Hd.
+    replace ((size n / F + 1) * F <? size n) with false by lia.
+    assert (negb w && (cap <=? qlen + size n / F) = false) as ->.
+    { unfold nfrag in Hw. destruct Hw as [->|Hw]; [reflexivity|]. destruct w; cbn [negb andb]; lia. }
+    fold (nfrag F n). fold (split F g n). unfold enqueue. f_equal.
+    apply take_all. unfold len. rewrite map_length. fold (len (split F g n)).
+    rewrite split_length by assumption. lia.
+  Qed.
+
+  Lemma stamp_addressed (local : Z) (p : packet A) : p_dev p <> 0 -> stamp local p = p.
+  Proof. intros H; unfold stamp. replace (p_dev p =? 0) with false by lia. reflexivity. Qed.
+End WriteProofs.
+
+(* ---- flag bits ------------------------------------------------------------- *)
+Lemma testbit_1 k : Z.testbit 1 k = (k =? 0).
+Proof.
+  destruct (Z.ltb_spec k 0) as [Hk|Hk].
+  - rewrite Z.testbit_neg_r by lia. lia.
+  - change 1 with (2 ^ 0). rewrite Z.pow2_bits_eqb by lia. lia.
+Qed.
+Lemma lor1_bit0 b : Z.testbit (Z.lor b 1) 0 = true.
+Proof. rewrite Z.lor_spec, testbit_1. apply orb_true_r. Qed.
+Lemma lor1_bitk b k : k <> 0 -> Z.testbit (Z.lor b 1) k = Z.testbit b k.
+Proof. intros. rewrite Z.lor_spec, testbit_1. replace (k =? 0) with false by lia. apply orb_false_r. Qed.
+Lemma lor1_nonzero b : Z.lor b 1 <> 0.
+Proof. intros E. pose proof (lor1_bit0 b) as H. rewrite E in H. discriminate. Qed.
+Lemma lor1_idem b : Z.lor (Z.lor b 1) 1 = Z.lor b 1.
+Proof. rewrite <- Z.lor_assoc. reflexivity. Qed.
+(* Flag.Clear after the setters gives back the low bits of the original whenever FlagFrag was not set in it *)
+Lemma clear_frag_bits b : Z.testbit b 0 = false -> Z.lxor (Z.lor b 1) 1 = b.
+Proof.
+  intros H. apply Z.bits_inj'. intros k Hk.
+  rewrite Z.lxor_spec, Z.lor_spec, testbit_1.
+  destruct (Z.eqb_spec k 0) as [->|]; [rewrite H; reflexivity|].
+  rewrite orb_false_r, xorb_false_r. reflexivity.
+Qed.
+
+(* ---- the reassembly table --------------------------------------------------- *)
+Section Table.
+  Context {A : Type}.
+  Implicit Types st : state A.
+  Definition wf st : Prop := NoDup (map fst st).
+
+  Lemma lookup_none_notin g st : lookup g st = None <-> ~ In g (map fst st).
+  Proof.
+    induction st as [|[k c] r IH]; cbn [lookup map fst In]; [tauto|].
+    destruct (Z.eqb_spec k g); split; intros H; try discriminate; try tauto.
+    all: try (exfalso; apply H; now left).
+    all: try (intros [E|E]; [congruence | tauto]).
+  Qed.
+  Lemma lookup_some_in g st c : lookup g st = Some c -> In (g, c) st.
+  Proof.
+    induction st as [|[k c'] r IH]; cbn [lookup In]; [discriminate|].
+    destruct (Z.eqb_spec k g); intros H; [inversion H; subst; now left | right; auto].
+  Qed.
+  Lemma lookup_remove_same g st : lookup g (remove g st) = None.
+  Proof.
+    induction st as [|[k c] r IH]; cbn [remove filter fst]; [reflexivity|].
+    fold (remove g r). destruct (Z.eqb_spec k g); cbn [negb]; [exact IH|].
+    cbn [lookup]. destruct (Z.eqb_spec k g); [contradiction | exact IH].
+  Qed.
+  Lemma lookup_remove_other g g' st : g' <> g -> lookup g (remove g' st) = lookup g st.
+  Proof.
+    intros Hn. induction st as [|[k c] r IH]; cbn [remove filter fst]; [reflexivity|].
+    fold (remove g' r). destruct (Z.eqb_spec k g'); cbn [negb lookup].
+    - subst. destruct (Z.eqb_spec g' g); [contradiction | exact IH].
+    - rewrite IH. reflexivity.
+  Qed.
+  Lemma lookup_set_same g oc st : lookup g (set g oc st) = oc.
+  Proof.
+    destruct oc; cbn [set lookup]; [rewrite Z.eqb_refl; reflexivity | apply lookup_remove_same].
+  Qed.
+  Lemma lookup_set_other g g' oc st : g' <> g -> lookup g (set g' oc st) = lookup g st.
+  Proof.
+    intros Hn. destruct oc; cbn [set lookup]; [|now apply lookup_remove_other].
+    destruct (Z.eqb_spec g' g); [contradiction | now apply lookup_remove_other].
+  Qed.
+  Lemma remove_keys_incl g st : incl (map fst (remove g st)) (map fst st).
+  Proof.
+    induction st as [|[k c] r IH]; cbn [remove filter fst map]; [apply incl_refl|].
+    fold (remove g r). destruct (negb (k =? g)); cbn [map fst]; [|now apply incl_tl].
+    apply incl_cons; [apply in_eq | apply incl_tl, IH].
+  Qed.
+  Lemma wf_remove g st : wf st -> wf (remove g st).
+  Proof.
+    unfold wf. induction st as [|[k c] r IH]; cbn [remove filter fst map]; [auto|].
+    fold (remove g r). intros H. inversion H; subst.
+    destruct (negb (k =? g)); cbn [map fst]; auto.
+    constructor; auto. intros Hin. apply (remove_keys_incl g r) in Hin. contradiction.
+  Qed.
+  Lemma wf_set g oc st : wf st -> wf (set g oc st).
+  Proof.
+    intros H. destruct oc; cbn [set]; [|now apply wf_remove].
+    unfold wf; cbn [map fst]. constructor; [|now apply wf_remove].
+    apply lookup_none_notin, lookup_remove_same.
+  Qed.
+  Lemma wf_nil : wf [].
+  Proof. constructor. Qed.
+
+  Lemma sweep_keys_incl st : incl (map fst (sweep st)) (map fst st).
+  Proof.
+    induction st as [|[k c] r IH]; cbn [sweep map fst]; [apply incl_refl|].
+    destruct (u8 (c_c c - 1) =? 0); cbn [map fst]; [now apply incl_tl|].
+    apply incl_cons; [apply in_eq | apply incl_tl, IH].
+  Qed.
+  Lemma wf_sweep st : wf st -> wf (sweep st).
+  Proof.
+    unfold wf. induction st as [|[k c] r IH]; cbn [sweep map fst]; [auto|].
+    intros H; inversion H; subst.
+    destruct (u8 (c_c c - 1) =? 0); cbn [map fst]; auto.
+    constructor; auto. intros Hin. apply sweep_keys_incl in Hin. contradiction.
+  Qed.
+  Lemma lookup_sweep_none g st : lookup g st = None -> lookup g (sweep st) = None.
+  Proof.
+    rewrite !lookup_none_notin. intros H Hin. apply sweep_keys_incl in Hin. contradiction.
+  Qed.
+  Lemma lookup_sweep_some g st c : wf st -> lookup g st = Some c ->
+    lookup g (sweep st) =
+    if u8 (c_c c - 1) =? 0 then None else Some (mkCluster (c_max c) (c_e c) (u8 (c_c c - 1)) (c_data c)).
+  Proof.
+    unfold wf. induction st as [|[k c'] r IH]; cbn [lookup sweep map fst]; [discriminate|].
+    intros Hwf H. inversion Hwf; subst.
+    destruct (Z.eqb_spec k g).
+    - inversion H; subst. destruct (u8 (c_c c - 1) =? 0).
+      + apply lookup_sweep_none. now apply lookup_none_notin.
+      + cbn [lookup]. rewrite Z.eqb_refl. reflexivity.
+    - destruct (u8 (c_c c' - 1) =? 0); [now apply IH|].
+      cbn [lookup]. destruct (Z.eqb_spec k g); [contradiction | now apply IH].
+  Qed.
+End Table.
+
+(* ---- receive(): which part of the table one call can touch ------------------ *)
+Section RecvFrame.
+  Context {A : Type}.
+  Implicit Types (st : state A) (p : packet A).
+
+  Lemma cl_done_len0 (c : cluster A) v : cl_done c = Some v -> f_len (p_flags v) = 0.
+  Proof.
+    unfold cl_done. destruct (is_nil (c_data c)); [discriminate|].
+    destruct (c_max c <? _); [|discriminate].
+    destruct (sort_pos (c_data c)); [discriminate|].
+    intros H; inversion H; reflexivity.
+  Qed.
+
+  Lemma frag_step_again oc p oc' v : frag_step oc p = (oc', FAgain v) -> f_len (p_flags v) = 0.
+  Proof.
+    unfold frag_step.
+    assert (forall c, match cl_add c p with
+                      | Ok c' => match cl_done c' with Some v => (None, FAgain v) | None => (Some c', FNone) end
+                      | Err e => (Some c, FErr e)
+                      | Panic => (Some c, FErr ErrUnmodelled)
+                      end = (oc', FAgain v) -> f_len (p_flags v) = 0) as Hgo.
+    { intros c. destruct (cl_add c p); try discriminate.
+      destruct (cl_done a) eqn:E; [|discriminate]. intros H; inversion H; subst. eapply cl_done_len0; eauto. }
+    destruct oc; [apply Hgo|].
+    destruct (0 <? f_pos (p_flags p)); [discriminate | apply Hgo].
+  Qed.
+
+  Lemma frag_step_err oc p oc' e : frag_step oc p = (oc', FErr e) -> e = ErrNotBelongs \/ e = ErrUnmodelled.
+  Proof.
+    unfold frag_step.
+    assert (forall c, match cl_add c p with
+                      | Ok c' => match cl_done c' with Some v => (None, FAgain v) | None => (Some c', FNone) end
+                      | Err e => (Some c, FErr e)
+                      | Panic => (Some c, FErr ErrUnmodelled)
+                      end = (oc', FErr e) -> e = ErrNotBelongs \/ e = ErrUnmodelled) as Hgo.
+    { intros c. unfold cl_add.
+      destruct (match c_data c with [] => false | d0 :: _ => negb (belongs d0 p) end).
+      - intros H; inversion H; now left.
+      - destruct (is_nil (p_data p)); match goal with |- context [cl_done ?x] => destruct (cl_done x) end; discriminate. }
+    destruct oc; [apply Hgo|].
+    destruct (0 <? f_pos (p_flags p)); [discriminate | apply Hgo].
+  Qed.
+
+  Lemma recv_f_S k self st p : recv_f (S k) self st p =
+      if (p_dev p =? 0) || is_nop p then (st, ONone)
+      else if negb (has_multidev (p_flags p)) && negb (self =? p_dev p) then (st, OErr ErrWrongDevice)
+      else if (p_id p =? SvComplete) && negb (has_crypt (p_flags p)) then (st, ONone)
+      else if has_multi (p_flags p) then (st, OErr ErrUnmodelled)
+      else if has_frag (p_flags p) then
+        if (p_id p =? SvDrop) || (p_id p =? SvRegister) then (st, OErr ErrUnmodelled)
+        else if f_len (p_flags p) =? 0 then (st, OErr ErrInvalidPacketCount)
+        else if f_len (p_flags p) =? 1 then recv_f k self st (with_flags (fclear (p_flags p)) p)
+        else
+          let g := f_group (p_flags p) in
+          let '(oc, fo) := frag_step (lookup g st) p in
+          let st' := set g oc st in
+          match fo with
+          | FNone => (st', ONone)
+          | FDrop f => (st', ODrop f self)
+          | FErr e => (st', OErr e)
+          | FAgain v => recv_f k self st' v
+          end
+      else (st, recv_single p).
+  Proof. reflexivity. Qed.
+
+  (* a packet whose Len field is zero never changes the table *)
+  Lemma recv_f_len0 k self st p : f_len (p_flags p) = 0 -> fst (recv_f k self st p) = st.
+  Proof.
+    intros H. destruct k; [reflexivity|]. rewrite recv_f_S. rewrite H. cbn [Z.eqb].
+    repeat match goal with |- context [if ?b then _ else _] => destruct b end; reflexivity.
+  Qed.
+
+  Lemma recv_f_frame k self st p :
+    fst (recv_f k self st p) = st \/ exists oc, fst (recv_f k self st p) = set (f_group (p_flags p)) oc st.
+  Proof.
+    destruct k; [left; reflexivity|]. rewrite recv_f_S. cbv zeta.
+    destruct ((p_dev p =? 0) || is_nop p); [left; reflexivity|].
+    destruct (negb (has_multidev (p_flags p)) && negb (self =? p_dev p)); [left; reflexivity|].
+    destruct ((p_id p =? SvComplete) && negb (has_crypt (p_flags p))); [left; reflexivity|].
+    destruct (has_multi (p_flags p)); [left; reflexivity|].
+    destruct (has_frag (p_flags p)); [|left; reflexivity].
+    destruct ((p_id p =? SvDrop) || (p_id p =? SvRegister)); [left; reflexivity|].
+    destruct (f_len (p_flags p) =? 0); [left; reflexivity|].
+    destruct (f_len (p_flags p) =? 1); [left; apply recv_f_len0; reflexivity|].
+    destruct (frag_step (lookup (f_group (p_flags p)) st) p) as [oc fo] eqn:E.
+    right; exists oc. destruct fo; try reflexivity.
+    apply recv_f_len0. eapply frag_step_again; eauto.
+  Qed.
+
+  Lemma recv_lookup_other g self st p : f_group (p_flags p) <> g ->
+    lookup g (fst (recv self st p)) = lookup g st.
+  Proof.
+    intros Hn. unfold recv. destruct (recv_f_frame 3 self st p) as [->|[oc ->]]; [reflexivity|].
+    now apply lookup_set_other.
+  Qed.
+  Lemma recv_wf self st p : wf st -> wf (fst (recv self st p)).
+  Proof.
+    intros H. unfold recv. destruct (recv_f_frame 3 self st p) as [->|[oc ->]]; [assumption|].
+    now apply wf_set.
+  Qed.
+
+  (* the fuel of recv is enough: a reassembled packet has Len 0 and is not split again *)
+  Lemma recv_f_len0_fuel k self st p : f_len (p_flags p) = 0 ->
+    snd (recv_f (S k) self st p) <> OErr ErrOutOfFuel.
+  Proof.
+    intros H. rewrite recv_f_S. rewrite H. cbn [Z.eqb].
+    unfold recv_single.
+    repeat match goal with |- context [if ?b then _ else _] => destruct b end; cbn [snd]; discriminate.
+  Qed.
+  Theorem recv_fuel_enough self st p : snd (recv self st p) <> OErr ErrOutOfFuel.
+  Proof.
+    unfold recv. rewrite recv_f_S. cbv zeta.
+    destruct ((p_dev p =? 0) || is_nop p); [discriminate|].
+    destruct (negb (has_multidev (p_flags p)) && negb (self =? p_dev p)); [discriminate|].
+    destruct ((p_id p =? SvComplete) && negb (has_crypt (p_flags p))); [discriminate|].
+    destruct (has_multi (p_flags p)); [discriminate|].
+    destruct (has_frag (p_flags p)).
+    2:{ unfold recv_single. repeat match goal with |- context [if ?b then _ else _] => destruct b end; cbn [snd]; discriminate. }
+    destruct ((p_id p =? SvDrop) || (p_id p =? SvRegister)); [discriminate|].
+    destruct (f_len (p_flags p) =? 0); [discriminate|].
+    destruct (f_len (p_flags p) =? 1); [apply recv_f_len0_fuel; reflexivity|].
+    destruct (frag_step (lookup (f_group (p_flags p)) st) p) as [oc fo] eqn:E.
+    destruct fo; try discriminate.
+    - apply frag_step_err in E. cbn [snd]. intros H; inversion H; subst. destruct E; discriminate.
+    - apply recv_f_len0_fuel. eapply frag_step_again; eauto.
+  Qed.
+End RecvFrame.
+
+(* ---- fewer arrivals than fragments: nothing is delivered ---------------------- *)
+Section Missing.
+  Context {A : Type}.
+  Variables (g M self : Z).
+  Hypothesis HM : 2 <= M <= 65535.
+
+  (* what is known of an arriving packet of the group: a fragment announcing M fragments *)
+  Definition frag_of (p : packet A) : Prop := f_len (p_flags p) = M /\ has_frag (p_flags p) = true.
+
+  Definition below (cnt : Z) (st : state A) : Prop :=
+    Forall (fun kc : Z * cluster A => fst kc = g -> 0 <= c_e (snd kc) /\ len (c_data (snd kc)) + c_e (snd kc) <= cnt) st.
+
+  Lemma below_mono cnt cnt' st : cnt <= cnt' -> below cnt st -> below cnt' st.
+  Proof. intros Hle H. eapply Forall_impl; [|exact H]. cbv beta. intros kc Hk Hg. specialize (Hk Hg). lia. Qed.
+  Lemma below_sweep cnt st : below cnt st -> below cnt (sweep st).
+  Proof.
+    unfold below. induction st as [|[k c] r IH]; cbn [sweep]; [auto|].
+    intros H; inversion H; subst.
+    destruct (u8 (c_c c - 1) =? 0); [auto|]. constructor; auto.
+  Qed.
+  Lemma below_remove cnt g' st : below cnt st -> below cnt (remove g' st).
+  Proof.
+    unfold below, remove. intros H. apply Forall_forall. intros x Hx. apply filter_In in Hx.
+    rewrite Forall_forall in H. apply H, Hx.
+  Qed.
+  Lemma below_set_other cnt g' oc st : g' <> g -> below cnt st -> below cnt (set g' oc st).
+  Proof.
+    intros Hn H. destruct oc; cbn [set]; [|now apply below_remove].
+    constructor; [cbn [fst]; intros; contradiction | now apply below_remove].
+  Qed.
+  Lemma below_set_own cnt (c : cluster A) st :
+    0 <= c_e c -> len (c_data c) + c_e c <= cnt -> below cnt st -> below cnt (set g (Some c) st).
+  Proof. intros; cbn [set]. constructor; [cbn [fst snd]; auto | now apply below_remove]. Qed.
+  Lemma below_lookup cnt st c : below cnt st -> lookup g st = Some c -> 0 <= c_e c /\ len (c_data c) + c_e c <= cnt.
+  Proof.
+    intros H L. apply lookup_some_in in L. unfold below in H. rewrite Forall_forall in H.
+    apply (H _ L). reflexivity.
+  Qed.
+
+  Lemma below_recv_foreign cnt st p : f_group (p_flags p) <> g -> below cnt st -> below cnt (fst (recv self st p)).
+  Proof.
+    intros Hn H. unfold recv. destruct (recv_f_frame 3 self st p) as [->|[oc ->]]; [assumption|].
+    now apply below_set_other.
+  Qed.
+
+  (* one more arrival of the group while fewer than M have arrived: no delivery *)
+  Lemma below_recv_own cnt st p : 0 <= cnt -> cnt + 1 < M -> frag_of p -> f_group (p_flags p) = g ->
+    below cnt st ->
+    below (cnt + 1) (fst (recv self st p)) /\ is_deliver (snd (recv self st p)) = false.
+  Proof.
+    intros Hc Hlt [Hlen Hfrag] Hg Hb. unfold recv. rewrite recv_f_S. cbv zeta.
+    assert (below (cnt + 1) st) as Hb1 by (eapply below_mono; [|exact Hb]; lia).
+    destruct ((p_dev p =? 0) || is_nop p); [split; [assumption|reflexivity]|].
+    destruct (negb (has_multidev (p_flags p)) && negb (self =? p_dev p)); [split; [assumption|reflexivity]|].
+    destruct ((p_id p =? SvComplete) && negb (has_crypt (p_flags p))); [split; [assumption|reflexivity]|].
+    destruct (has_multi (p_flags p)); [split; [assumption|reflexivity]|].
+    rewrite Hfrag.
+    destruct ((p_id p =? SvDrop) || (p_id p =? SvRegister)); [split; [assumption|reflexivity]|].
+    rewrite Hlen. replace (M =? 0) with false by lia. replace (M =? 1) with false by lia.
+    rewrite Hg.
+    (* the step on a cluster c that satisfies the bound *)
+    assert (forall c : cluster A, 0 <= c_e c -> len (c_data c) + c_e c <= cnt ->
+            exists c', 0 <= c_e c' /\ len (c_data c') + c_e c' <= cnt + 1 /\
+              (match cl_add c p with
+               | Ok c' => match cl_done c' with Some v => (None, FAgain v) | None => (Some c', FNone) end
+               | Err e => (Some c, FErr e)
+               | Panic => (Some c, FErr ErrUnmodelled)
+               end = (Some c', FNone) \/
+               exists e, match cl_add c p with
+               | Ok c' => match cl_done c' with Some v => (None, FAgain v) | None => (Some c', FNone) end
+               | Err e => (Some c, FErr e)
+               | Panic => (Some c, FErr ErrUnmodelled)
+               end = (Some c', FErr e))) as Hgo.
+    { intros c He Hle. unfold cl_add.
+      destruct (match c_data c with [] => false | d0 :: _ => negb (belongs d0 p) end).
+      { exists c. repeat split; try lia. right. eexists; reflexivity. }
+      rewrite Hlen. rewrite (u16_small (M - 1)) by lia.
+      pose proof (len_nonneg (c_data c)) as Hl.
+      destruct (is_nil (p_data p)).
+      - rewrite (u16_small (c_e c + 1)) by lia.
+        eexists. split; [|split]; [| |left].
+        3:{ unfold cl_done; cbn [c_data c_max c_e].
+            destruct (is_nil (c_data c)); [reflexivity|].
+            rewrite (u16_small (len (c_data c))) by lia. rewrite u16_small by lia.
+            replace (M - 1 <? len (c_data c) + (c_e c + 1)) with false by lia. reflexivity. }
+        all: cbn [c_e c_data]; lia.
+      - eexists. split; [|split]; [| |left].
+        3:{ unfold cl_done; cbn [c_data c_max c_e].
+            destruct (is_nil (c_data c ++ [p])); [reflexivity|].
+            rewrite len_app, len_cons, len_nil.
+            rewrite (u16_small (len (c_data c) + (0 + 1))) by lia. rewrite u16_small by lia.
+            replace (M - 1 <? len (c_data c) + (0 + 1) + c_e c) with false by lia. reflexivity. }
+        all: cbn [c_e c_data]; try rewrite len_app, len_cons, len_nil; lia. }
+    unfold frag_step.
+    destruct (lookup g st) as [c|] eqn:L.
+    - destruct (below_lookup _ _ _ Hb L) as [He Hle].
+      destruct (Hgo c He Hle) as (c' & He' & Hle' & [->| [e ->]]); cbn [fst snd is_deliver]; (split; [|reflexivity]);
+        apply below_set_own; auto.
+    - destruct (0 <? f_pos (p_flags p)).
+      + cbn [fst snd set is_deliver]. split; [now apply below_remove | reflexivity].
+      + assert (0 <= c_e (@mkCluster A 0 0 0 [])) as H0 by (cbn [c_e]; lia).
+        assert (len (c_data (@mkCluster A 0 0 0 [])) + c_e (@mkCluster A 0 0 0 []) <= cnt) as H1
+          by (cbn [c_e c_data]; unfold len; cbn [length]; lia).
+        destruct (Hgo _ H0 H1) as (c' & He' & Hle' & [->| [e ->]]);
+          cbn [fst snd is_deliver]; (split; [|reflexivity]); apply below_set_own; auto.
+  Qed.
+
+  Lemma run_cons_pkt (st : state A) (p : packet A) (r : list (ev A)) : run self st (EvPkt p :: r) =
+    (fst (run self (fst (recv self st p)) r), snd (recv self st p) :: snd (run self (fst (recv self st p)) r)).
+  Proof. cbn [run]. destruct (recv self st p) as [st1 o]. cbn [fst snd]. destruct (run self st1 r); reflexivity. Qed.
+  Lemma run_cons_sweep (st : state A) (r : list (ev A)) : run self st (@EvSweep A :: r) =
+    (fst (run self (sweep st) r), ONone :: snd (run self (sweep st) r)).
+  Proof. cbn [run]. destruct (run self (sweep st) r); reflexivity. Qed.
+
+  Theorem missing_run : forall (evs : list (ev A)) (st : state A) cnt,
+    0 <= cnt -> below cnt st ->
+    Forall frag_of (own_pkts g evs) -> cnt + len (own_pkts g evs) < M ->
+    Forall (fun o => is_deliver o = false) (own_outs g evs (snd (run self st evs))).
+  Proof.
+    induction evs as [|e r IH]; intros st cnt Hc Hb Hf Hlt.
+    - cbn [own_outs]. constructor.
+    - destruct e as [p|].
+      + rewrite run_cons_pkt. cbn [snd own_outs is_own own_pkts] in *.
+        destruct (Z.eqb_spec (f_group (p_flags p)) g) as [Hg|Hg].
+        * inversion Hf; subst. rewrite len_cons in Hlt. pose proof (len_nonneg (own_pkts g r)).
+          destruct (below_recv_own cnt st p) as [Hb' Ho]; auto; try lia.
+          constructor; [exact Ho|]. apply (IH _ (cnt + 1)); auto; lia.
+        * apply (IH _ cnt); auto. now apply below_recv_foreign.
+      + rewrite run_cons_sweep. cbn [snd own_outs is_own own_pkts] in *.
+        apply (IH _ cnt); auto using below_sweep.
+  Qed.
+End Missing.
+
+(* ---- sort.Sort by position, and the Add loop of cluster.done --------------------- *)
+Section Sorting.
+  Context {A : Type}.
+  Definition pos (p : packet A) : Z := f_pos (p_flags p).
+  Definition le_pos (x y : packet A) : Prop := pos x <= pos y.
+
+  Lemma insert_perm q (l : list (packet A)) : Permutation (insert_pos q l) (q :: l).
+  Proof.
+    induction l as [|x r IH]; cbn [insert_pos]; [apply Permutation_refl|].
+    destruct (f_pos (p_flags x) <=? f_pos (p_flags q)); [|apply Permutation_refl].
+    eapply perm_trans; [apply perm_skip, IH | apply perm_swap].
+  Qed.
+  Lemma sort_perm (l : list (packet A)) : Permutation (sort_pos l) l.
+  Proof.
+    induction l as [|a r IH]; cbn [sort_pos fold_right]; [constructor|].
+    fold (sort_pos r). eapply perm_trans; [apply insert_perm | now apply perm_skip].
+  Qed.
+  Lemma insert_sorted q (l : list (packet A)) : StronglySorted le_pos l -> StronglySorted le_pos (insert_pos q l).
+  Proof.
+    induction l as [|x r IH]; cbn [insert_pos]; intros H.
+    - constructor; [constructor | constructor].
+    - inversion H; subst.
+      destruct (Z.leb_spec (f_pos (p_flags x)) (f_pos (p_flags q))) as [Hle|Hgt].
+      + constructor; [now apply IH|].
+        apply Forall_forall. intros y Hy.
+        apply (Permutation_in _ (insert_perm q r)) in Hy. destruct Hy as [<-|Hy]; [exact Hle|].
+        rewrite Forall_forall in H3. now apply H3.
+      + constructor; [exact H|]. constructor; [unfold le_pos, pos; lia|].
+        eapply Forall_impl; [|exact H3]. unfold le_pos, pos. intros; lia.
+  Qed.
+  Lemma sort_sorted (l : list (packet A)) : StronglySorted le_pos (sort_pos l).
+  Proof.
+    induction l as [|a r IH]; cbn [sort_pos fold_right]; [constructor|].
+    fold (sort_pos r). now apply insert_sorted.
+  Qed.
+
+  Lemma sorted_perm_unique : forall l1 l2 : list (packet A),
+    StronglySorted le_pos l1 -> StronglySorted le_pos l2 -> Permutation l1 l2 ->
+    (forall x y, In x l1 -> In y l1 -> pos x = pos y -> x = y) -> l1 = l2.
+  Proof.
+    induction l1 as [|a r1 IH]; intros l2 H1 H2 HP Hinj.
+    - apply Permutation_nil in HP. now subst.
+    - destruct l2 as [|b r2]; [apply Permutation_sym, Permutation_nil in HP; discriminate|].
+      inversion H1 as [|? ? S1 F1]; subst. inversion H2 as [|? ? S2 F2]; subst.
+      assert (a = b) as ->.
+      { assert (In b (a :: r1)) as Hb by (eapply Permutation_in; [apply Permutation_sym, HP | apply in_eq]).
+        assert (In a (b :: r2)) as Ha by (eapply Permutation_in; [apply HP | apply in_eq]).
+        apply Hinj; [apply in_eq | exact Hb |].
+        rewrite Forall_forall in F1, F2.
+        assert (pos a <= pos b) by (destruct Hb as [->|Hb]; [lia | apply F1, Hb]).
+        assert (pos b <= pos a) by (destruct Ha as [->|Ha]; [lia | apply F2, Ha]).
+        lia. }
+      f_equal. apply IH; auto.
+      + eapply Permutation_cons_inv; eauto.
+      + intros x y Hx Hy. apply Hinj; now right.
+  Qed.
+
+  Theorem sort_pos_of_perm (l l0 : list (packet A)) :
+    Permutation l l0 -> StronglySorted le_pos l0 ->
+    (forall x y, In x l0 -> In y l0 -> pos x = pos y -> x = y) -> sort_pos l = l0.
+  Proof.
+    intros HP HS Hinj. symmetry. apply sorted_perm_unique; auto using sort_sorted.
+    eapply perm_trans; [apply Permutation_sym, HP | apply Permutation_sym, sort_perm].
+  Qed.
+
+  (* the Add loop of cluster.done is the filter + concatenation of Model.Frag.join *)
+  Lemma padd_id (n x : packet A) : p_id (padd n x) = p_id n.
+  Proof. unfold padd. destruct (is_nil (p_data x) || negb (p_id n =? p_id x)); reflexivity. Qed.
+  Theorem join_is_fold_padd : forall (tl : list (packet A)) n, fold_left padd tl n = join n tl.
+  Proof.
+    induction tl as [|x r IH]; intros n; cbn [fold_left].
+    - unfold join; cbn [filter map concat fold_left]. rewrite app_nil_r. destruct n as [? ? ? []]; reflexivity.
+    - rewrite IH. unfold join. cbn [filter].
+      change (joinable n x) with (negb (is_nil (p_data x) || negb (p_id n =? p_id x))).
+      assert (filter (joinable (padd n x)) r = filter (joinable n) r) as ->.
+      { apply filter_ext. intros y. unfold joinable. now rewrite padd_id. }
+      unfold padd. destruct (is_nil (p_data x) || negb (p_id n =? p_id x)); cbn [negb]; [reflexivity|].
+      cbn [p_id p_job p_dev p_flags p_tags p_data f_len f_pos f_group f_bits map concat fold_left].
+      rewrite <- app_assoc. reflexivity.
+  Qed.
+
+  Lemma fold_lor_same B (l : list Z) : Forall (fun x => x = B) l -> fold_left Z.lor l B = B.
+  Proof.
+    induction l as [|x r IH]; intros H; cbn [fold_left]; [reflexivity|].
+    inversion H; subst. rewrite Z.lor_diag. now apply IH.
+  Qed.
+
+  Lemma join_all (n : packet A) tl B :
+    Forall (fun x => is_nil (p_data x) = false /\ p_id x = p_id n /\ f_bits (p_flags x) = B) tl ->
+    f_bits (p_flags n) = B ->
+    join n tl = mkPacket (p_id n) (p_job n) (p_dev n)
+                  (mkFlags (f_len (p_flags n)) (f_pos (p_flags n)) (f_group (p_flags n)) B)
+                  (p_tags n) (p_data n ++ concat (map p_data tl)).
+  Proof.
+    intros H HB. unfold join.
+    assert (filter (joinable n) tl = tl) as ->.
+    { induction tl as [|x r IH]; [reflexivity|]. inversion H as [|? ? (Hn & Hi & _) Hr]; subst.
+      cbn [filter]. unfold joinable at 1. rewrite Hn, Hi, Z.eqb_refl. cbn [orb negb]. f_equal. now apply IH. }
+    rewrite HB. rewrite fold_lor_same; [reflexivity|].
+    apply Forall_forall. intros b Hb. apply in_map_iff in Hb. destruct Hb as (x & <- & Hx).
+    rewrite Forall_forall in H. apply (H x Hx).
+  Qed.
+End Sorting.
+
+(* ---- reassembly, abstractly: a sorted list fs of M fragments of one group -------------- *)
+Section Reassembly.
+  Context {A : Type}.
+  Variables (g M self ID JOB B : Z) (f0 : packet A) (rest : list (packet A)) (R : packet A).
+  Let fs := f0 :: rest.
+  Definition nonempty (p : packet A) : bool := negb (is_nil (p_data p)).
+  Definition isempty (p : packet A) : bool := is_nil (p_data p).
+  Definition stored (l : list (packet A)) := filter nonempty l.
+  Definition empties (l : list (packet A)) : Z := len (filter isempty l).
+
+  Hypothesis HM : 2 <= M <= 65535.
+  Hypothesis Hlen : len fs = M.
+  Hypothesis Hself : self <> 0.
+  Hypothesis Hfs : Forall (fun f => p_dev f = self /\ MvRefresh <= p_id f /\ has_multi (p_flags f) = false /\
+                                    has_frag (p_flags f) = true /\ f_len (p_flags f) = M /\ f_group (p_flags f) = g /\
+                                    f_bits (p_flags f) = B /\ p_id f = ID /\ p_job f = JOB) fs.
+  Hypothesis Hsorted : StronglySorted le_pos fs.
+  Hypothesis Hinj : forall x y, In x fs -> In y fs -> pos x = pos y -> x = y.
+  Hypothesis Hpos0 : f_pos (p_flags f0) = 0.
+  Hypothesis Hdata0 : is_nil (p_data f0) = false.
+  (* what cluster.done hands back to receive(), and what receive() does with it *)
+  Let J := join f0 (stored rest).
+  Let V := with_flags (fclear (p_flags J)) J.
+  Hypothesis Hdeliver : forall st : state A, recv_f 2 self st V = (st, ODeliver R).
+
+  Definition clus (seen : list (packet A)) (c : Z) : cluster A :=
+    mkCluster (M - 1) (empties seen) (fragMaxMisses - c) (stored seen).
+
+  Lemma count_split (l : list (packet A)) : len (stored l) + empties l = len l.
+  Proof.
+    unfold stored, empties, nonempty, isempty. induction l as [|x r IH]; cbn [filter]; [reflexivity|].
+    destruct (is_nil (p_data x)); cbn [negb]; rewrite ?len_cons; lia.
+  Qed.
+  Lemma empties_nonneg l : 0 <= empties l.
+  Proof. apply len_nonneg. Qed.
+  Lemma stored_app l1 l2 : stored (l1 ++ l2) = stored l1 ++ stored l2.
+  Proof. apply filter_app. Qed.
+  Lemma empties_app l1 l2 : empties (l1 ++ l2) = empties l1 + empties l2.
+  Proof. unfold empties. rewrite filter_app, len_app. reflexivity. Qed.
+
+  Lemma stored_single p : stored [p] = if is_nil (p_data p) then [] else [p].
+  Proof. unfold stored, nonempty; cbn [filter]. destruct (is_nil (p_data p)); reflexivity. Qed.
+  Lemma empties_single p : empties [p] = if is_nil (p_data p) then 1 else 0.
+  Proof. unfold empties, isempty; cbn [filter]. destruct (is_nil (p_data p)); reflexivity. Qed.
+
+  Lemma has_frag_nonzero (f : flags) : has_frag f = true -> f_zero f = false.
+  Proof.
+    unfold has_frag, f_zero. intros H. destruct (Z.eqb_spec (f_bits f) 0) as [E|]; [|now rewrite andb_false_r].
+    rewrite E in H. discriminate.
+  Qed.
+
+  (* receive() of a fragment of fs reaches the cluster step *)
+  Lemma recv_own (st : state A) p : In p fs ->
+    recv self st p =
+    let '(oc, fo) := frag_step (lookup g st) p in
+    let st' := set g oc st in
+    match fo with
+    | FNone => (st', ONone)
+    | FDrop f => (st', ODrop f self)
+    | FErr e => (st', OErr e)
+    | FAgain v => recv_f 2 self st' v
+    end.
+  Proof.
+    intros Hin. rewrite Forall_forall in Hfs. destruct (Hfs p Hin) as (Hd & Hid & Hmu & Hfr & Hl & Hg & _).
+    unfold MvRefresh in Hid. unfold recv. rewrite recv_f_S. cbv zeta.
+    rewrite Hd. replace (self =? 0) with false by lia. unfold is_nop.
+    replace (p_id p <? 2) with false by lia. cbn [andb orb].
+    rewrite Z.eqb_refl. cbn [negb]. rewrite andb_false_r.
+    unfold SvComplete, SvDrop, SvRegister.
+    replace (p_id p =? 4) with false by lia. cbn [andb]. rewrite Hmu, Hfr.
+    replace (p_id p =? 6) with false by lia. replace (p_id p =? 3) with false by lia. cbn [orb].
+    rewrite Hl. replace (M =? 0) with false by lia. replace (M =? 1) with false by lia.
+    rewrite Hg. reflexivity.
+  Qed.
+
+  Lemma in_fs_props p : In p fs -> f_len (p_flags p) = M /\ p_id p = ID /\ p_job p = JOB /\ f_group (p_flags p) = g /\
+                                   has_frag (p_flags p) = true /\ f_bits (p_flags p) = B.
+  Proof. intros Hin. rewrite Forall_forall in Hfs. destruct (Hfs p Hin) as (_ & _ & _ & ? & ? & ? & ? & ? & ?). auto 10. Qed.
+
+  Lemma stored_head s : stored (f0 :: s) = f0 :: stored s.
+  Proof. unfold stored; cbn [filter]. unfold nonempty at 1. rewrite Hdata0. reflexivity. Qed.
+
+  (* cluster.add of one more fragment *)
+  Lemma add_ok s p c : In p fs -> len (f0 :: s) < M ->
+    cl_add (clus (f0 :: s) c) p = Ok (clus ((f0 :: s) ++ [p]) 0).
+  Proof.
+    intros Hin Hl. unfold cl_add, clus. cbn [c_data c_e c_max c_c].
+    rewrite stored_head.
+    destruct (in_fs_props p Hin) as (Hlp & Hip & Hjp & Hgp & Hfp & _).
+    destruct (in_fs_props f0 (in_eq _ _)) as (_ & Hi0 & Hj0 & Hg0 & Hf0 & _).
+    unfold belongs. rewrite !has_frag_nonzero by assumption. rewrite Hip, Hi0, Hjp, Hj0, Hgp, Hg0, !Z.eqb_refl.
+    cbn [negb andb]. rewrite Hlp, (u16_small (M - 1)) by lia.
+    rewrite stored_app, empties_app, stored_single, empties_single, stored_head.
+    pose proof (count_split (f0 :: s)). pose proof (empties_nonneg (f0 :: s)). pose proof (len_nonneg (stored (f0 :: s))).
+    unfold fragMaxMisses. rewrite Z.sub_0_r.
+    destruct (is_nil (p_data p)).
+    - rewrite u16_small by lia. rewrite app_nil_r. reflexivity.
+    - rewrite Z.add_0_r. reflexivity.
+  Qed.
+
+  (* cluster.done: complete exactly when all M have arrived *)
+  Lemma done_not_yet l c : stored l <> [] -> len l < M -> cl_done (clus l c) = None.
+  Proof.
+    intros Hne Hl. unfold cl_done, clus. cbn [c_data c_e c_max].
+    destruct (stored l) eqn:E; [contradiction|]. cbn [is_nil]. rewrite <- E.
+    pose proof (count_split l). pose proof (empties_nonneg l). pose proof (len_nonneg (stored l)).
+    rewrite (u16_small (len (stored l))) by lia. rewrite u16_small by lia.
+    replace (M - 1 <? len (stored l) + empties l) with false by lia. reflexivity.
+  Qed.
+
+  Lemma perm_filter (f : packet A -> bool) (l1 l2 : list (packet A)) :
+    Permutation l1 l2 -> Permutation (filter f l1) (filter f l2).
+  Proof.
+    induction 1; cbn [filter]; auto.
+    - destruct (f x); auto.
+    - destruct (f x), (f y); auto. apply perm_swap.
+    - eapply perm_trans; eauto.
+  Qed.
+  Lemma sorted_filter (f : packet A -> bool) (l : list (packet A)) :
+    StronglySorted le_pos l -> StronglySorted le_pos (filter f l).
+  Proof.
+    induction 1 as [|a l HS IH HF]; cbn [filter]; [constructor|].
+    destruct (f a); [|exact IH]. constructor; [exact IH|].
+    apply Forall_forall. intros x Hx. apply filter_In in Hx. rewrite Forall_forall in HF. apply HF, Hx.
+  Qed.
+
+  Lemma done_complete l c : Permutation l fs -> cl_done (clus l c) = Some V.
+  Proof.
+    intros HP. unfold cl_done, clus. cbn [c_data c_e c_max].
+    assert (Permutation (stored l) (stored fs)) as HPs by (apply perm_filter, HP).
+    assert (stored fs = f0 :: stored rest) as Efs by apply stored_head.
+    assert (sort_pos (stored l) = f0 :: stored rest) as ->.
+    { rewrite <- Efs. apply sort_pos_of_perm; [exact HPs | apply sorted_filter, Hsorted |].
+      intros x y Hx Hy. apply filter_In in Hx, Hy. apply Hinj; tauto. }
+    destruct (stored l) eqn:E.
+    { rewrite Efs in HPs. apply Permutation_nil in HPs. discriminate. }
+    cbn [is_nil]. rewrite <- E.
+    pose proof (count_split l). pose proof (empties_nonneg l). pose proof (len_nonneg (stored l)).
+    assert (len l = M) as Hl by (unfold len in *; rewrite (Permutation_length HP); exact Hlen).
+    rewrite (u16_small (len (stored l))) by lia. rewrite u16_small by lia.
+    replace (M - 1 <? len (stored l) + empties l) with true by lia. reflexivity.
+  Qed.
+
+  (* the three kinds of arrival *)
+  Lemma step_first (st : state A) : lookup g st = None ->
+    recv self st f0 = (set g (Some (clus [f0] 0)) st, ONone).
+  Proof.
+    intros L. rewrite recv_own by apply in_eq. rewrite L. unfold frag_step. rewrite Hpos0. cbn [Z.ltb Z.compare].
+    destruct (in_fs_props f0 (in_eq _ _)) as (Hl0 & _).
+    unfold cl_add at 1. cbn [c_data c_e]. rewrite Hl0, Hdata0, (u16_small (M - 1)) by lia.
+    change (mkCluster (M - 1) 0 fragMaxMisses ([] ++ [f0])) with (mkCluster (M - 1) 0 fragMaxMisses [f0]).
+    assert (mkCluster (M - 1) 0 fragMaxMisses [f0] = clus [f0] 0) as ->.
+    { unfold clus. rewrite stored_head. unfold empties, isempty; cbn [filter]. rewrite Hdata0. reflexivity. }
+    rewrite done_not_yet; [reflexivity | rewrite stored_head; discriminate | rewrite len_cons, len_nil; lia].
+  Qed.
+
+  Lemma step_more (st : state A) s p c : In p fs -> lookup g st = Some (clus (f0 :: s) c) ->
+    len (f0 :: s) + 1 < M ->
+    recv self st p = (set g (Some (clus ((f0 :: s) ++ [p]) 0)) st, ONone).
+  Proof.
+    intros Hin L Hl. rewrite recv_own by assumption. rewrite L. unfold frag_step.
+    rewrite add_ok by (assumption || lia).
+    rewrite done_not_yet; [reflexivity | |].
+    - cbn [app]. rewrite stored_head. discriminate.
+    - rewrite len_snoc. lia.
+  Qed.
+
+  Lemma step_last (st : state A) s p c : In p fs -> lookup g st = Some (clus (f0 :: s) c) ->
+    len (f0 :: s) < M -> Permutation ((f0 :: s) ++ [p]) fs ->
+    recv self st p = (set g None st, ODeliver R).
+  Proof.
+    intros Hin L Hl HP. rewrite recv_own by assumption. rewrite L. unfold frag_step.
+    rewrite add_ok by (assumption || lia).
+    rewrite (done_complete _ _ HP). apply Hdeliver.
+  Qed.
+
+  (* events that are not of the group leave it alone *)
+  Lemma own_pkts_exists (evs : list (ev A)) : own_pkts g evs <> [] -> existsb (is_own g) evs = true.
+  Proof.
+    induction evs as [|[p|] r IH]; cbn [own_pkts existsb is_own]; [congruence | |exact IH].
+    destruct (f_group (p_flags p) =? g); [reflexivity | exact IH].
+  Qed.
+
+  Lemma run_no_own : forall (evs : list (ev A)) (st : state A),
+    own_pkts g evs = [] -> lookup g st = None ->
+    lookup g (fst (run self st evs)) = None /\ own_outs g evs (snd (run self st evs)) = [].
+  Proof.
+    induction evs as [|[p|] r IH]; intros st Ho L.
+    - cbn [run fst snd own_outs]. auto.
+    - rewrite run_cons_pkt. cbn [fst snd own_outs is_own own_pkts] in *.
+      destruct (Z.eqb_spec (f_group (p_flags p)) g) as [Hg|Hg]; [discriminate|].
+      apply IH; [assumption|]. rewrite recv_lookup_other by assumption. exact L.
+    - rewrite run_cons_sweep. cbn [fst snd own_outs is_own own_pkts] in *.
+      apply IH; [assumption|]. now apply lookup_sweep_none.
+  Qed.
+
+  Lemma repeat_step (x : out A) (k : Z) : 1 <= k -> repeat x (Z.to_nat k) = x :: repeat x (Z.to_nat (k - 1)).
+  Proof. intros. replace (Z.to_nat k) with (S (Z.to_nat (k - 1))) by lia. reflexivity. Qed.
+
+  (* the group is open: `f0 :: s` arrived, c wake-ups ago *)
+  Lemma run_open : forall (evs : list (ev A)) (s : list (packet A)) (st : state A) c,
+    wf st -> lookup g st = Some (clus (f0 :: s) c) -> 0 <= c < fragMaxMisses ->
+    len (f0 :: s) < M ->
+    Permutation ((f0 :: s) ++ own_pkts g evs) fs ->
+    paced_from g c evs = true ->
+    lookup g (fst (run self st evs)) = None /\
+    own_outs g evs (snd (run self st evs)) = repeat ONone (Z.to_nat (M - len (f0 :: s) - 1)) ++ [ODeliver R].
+  Proof.
+    induction evs as [|[p|] r IH]; intros s st c Hwf L Hc Hl HP Hpaced.
+    - exfalso. cbn [own_pkts] in HP. rewrite app_nil_r in HP.
+      apply Permutation_length in HP. unfold len in *. lia.
+    - rewrite run_cons_pkt. cbn [fst snd own_outs is_own own_pkts paced_from] in *.
+      destruct (Z.eqb_spec (f_group (p_flags p)) g) as [Hg|Hg].
+      + assert (In p fs) as Hin by (eapply Permutation_in; [exact HP | apply in_or_app; right; apply in_eq]).
+        assert (len ((f0 :: s) ++ p :: own_pkts g r) = M) as Htot.
+        { unfold len in *. rewrite (Permutation_length HP). exact Hlen. }
+        rewrite len_app, (len_cons p) in Htot. pose proof (len_nonneg (own_pkts g r)) as Hn.
+        destruct (Z.eq_dec (len (f0 :: s) + 1) M) as [Hlast|Hmore].
+        * assert (own_pkts g r = []) as Hr.
+          { destruct (own_pkts g r); [reflexivity|]. rewrite !len_cons in Htot. rewrite len_cons in Hlast.
+            pose proof (len_nonneg l). lia. }
+          rewrite Hr in HP.
+          rewrite (step_last st s p c Hin L Hl HP). cbn [fst snd].
+          destruct (run_no_own r (set g None st) Hr (lookup_set_same g None st)) as [L' O'].
+          split; [exact L'|]. rewrite O'. replace (M - len (f0 :: s) - 1) with 0 by lia. reflexivity.
+        * rewrite (step_more st s p c Hin L) by lia. cbn [fst snd].
+          destruct (IH (s ++ [p]) (set g (Some (clus ((f0 :: s) ++ [p]) 0)) st) 0) as [L' O'].
+          -- now apply wf_set.
+          -- apply lookup_set_same.
+          -- unfold fragMaxMisses; lia.
+          -- change (f0 :: s ++ [p]) with ((f0 :: s) ++ [p]). rewrite len_snoc. lia.
+          -- change (f0 :: s ++ [p]) with ((f0 :: s) ++ [p]). rewrite <- app_assoc. exact HP.
+          -- exact Hpaced.
+          -- split; [exact L'|]. rewrite O'.
+             change (f0 :: s ++ [p]) with ((f0 :: s) ++ [p]). rewrite len_snoc.
+             rewrite (repeat_step ONone (M - len (f0 :: s) - 1)) by lia. cbn [app].
+             replace (M - (len (f0 :: s) + 1) - 1) with (M - len (f0 :: s) - 1 - 1) by lia. reflexivity.
+      + apply (IH s _ c); auto.
+        * now apply recv_wf.
+        * rewrite recv_lookup_other by assumption. exact L.
+    - rewrite run_cons_sweep. cbn [fst snd own_outs is_own own_pkts paced_from] in *.
+      assert (own_pkts g r <> []) as Hne.
+      { intros E. rewrite E, app_nil_r in HP. apply Permutation_length in HP. unfold len in *. lia. }
+      rewrite (own_pkts_exists r Hne) in Hpaced. apply andb_true_iff in Hpaced. destruct Hpaced as [Hc1 Hp].
+      apply (IH s _ (c + 1)); auto.
+      + now apply wf_sweep.
+      + rewrite (lookup_sweep_some g st _ Hwf L). unfold clus at 1 2 3 4. cbn [c_c c_max c_e c_data].
+        unfold fragMaxMisses in *. rewrite u8_small by lia.
+        replace (5 - c - 1 =? 0) with false by lia. unfold clus, fragMaxMisses. do 2 f_equal. lia.
+      + unfold fragMaxMisses in *; lia.
+  Qed.
+
+  (* the whole history: nothing of the group has arrived yet *)
+  Theorem run_reassembles : forall (evs : list (ev A)) (st : state A),
+    wf st -> lookup g st = None ->
+    Permutation (own_pkts g evs) fs -> hd_error (own_pkts g evs) = Some f0 ->
+    paced g evs = true ->
+    lookup g (fst (run self st evs)) = None /\
+    own_outs g evs (snd (run self st evs)) = repeat ONone (Z.to_nat (M - 1)) ++ [ODeliver R].
+  Proof.
+    induction evs as [|[p|] r IH]; intros st Hwf L HP Hhd Hpaced.
+    - discriminate.
+    - rewrite run_cons_pkt. cbn [fst snd own_outs is_own own_pkts paced] in *.
+      destruct (Z.eqb_spec (f_group (p_flags p)) g) as [Hg|Hg].
+      + cbn [hd_error] in Hhd. inversion Hhd; subst p.
+        rewrite (step_first st L). cbn [fst snd].
+        destruct (run_open r [] (set g (Some (clus [f0] 0)) st) 0) as [L' O']; auto.
+        * now apply wf_set.
+        * apply lookup_set_same.
+        * unfold fragMaxMisses; lia.
+        * rewrite len_cons, len_nil. lia.
+        * split; [exact L'|]. rewrite O'. rewrite len_cons, len_nil.
+          rewrite (repeat_step ONone (M - 1)) by lia. cbn [app].
+          replace (M - (0 + 1) - 1) with (M - 1 - 1) by lia. reflexivity.
+      + apply IH; auto.
+        * now apply recv_wf.
+        * rewrite recv_lookup_other by assumption. exact L.
+    - rewrite run_cons_sweep. cbn [fst snd own_outs is_own own_pkts paced] in *.
+      apply IH; auto. now apply wf_sweep. now apply lookup_sweep_none.
+  Qed.
+End Reassembly.
+
+(* ---- the split satisfies the hypotheses of the abstract reassembly ------------------------ *)
+Section Concrete.
+  Context {A : Type}.
+  Variables (F g self : Z) (n : packet A).
+  Hypothesis HF : HeaderSize <= F.
+  Hypothesis Ht : 0 <= p_tags n.
+  Hypothesis Hs : F < size n.
+  Hypothesis HM : nfrag F n <= 65535.
+  Hypothesis Haddr : addressed self n.
+  Let M := nfrag F n.
+  Let data := p_data n.
+  Let b := f_bits (p_flags n).
+  Let B := Z.lor (Z.lor (Z.lor b 1) 1) 1.
+  Definition hfrag (j : nat) : packet A := mkfrag n g M (Z.of_nat j) (take F (drop (Z.of_nat j * F) data)).
+
+  Lemma F_pos : 0 < F.
+  Proof. unfold HeaderSize in HF; lia. Qed.
+  Lemma M_ge2 : 2 <= M.
+  Proof.
+    unfold M, nfrag. pose proof F_pos. assert (1 <= size n / F) by (apply Z.div_le_lower_bound; lia). lia.
+  Qed.
+  Lemma data_nonempty : 0 < len data.
+  Proof.
+    unfold data. destruct (is_nil (p_data n)) eqn:E; [|now apply is_nil_false_len].
+    exfalso. unfold size in Hs. rewrite E in Hs. lia.
+  Qed.
+
+  Lemma pieces_map (m : Z) : forall k i (rest : list A),
+    pieces F k n g m i rest =
+    map (fun j => mkfrag n g m (i + Z.of_nat j) (take F (drop (Z.of_nat j * F) rest))) (seq 0 k).
+  Proof.
+    pose proof F_pos as HFp.
+    induction k as [|k IH]; intros i rest; [reflexivity|].
+    cbn [pieces seq map]. f_equal.
+    - cbn [Z.of_nat]. rewrite Z.mul_0_l, drop_0, Z.add_0_r. reflexivity.
+    - rewrite IH, <- seq_shift, map_map. apply map_ext. intros j.
+      rewrite drop_drop by lia.
+      replace (i + 1 + Z.of_nat j) with (i + Z.of_nat (S j)) by lia.
+      replace (F + Z.of_nat j * F) with (Z.of_nat (S j) * F) by lia. reflexivity.
+  Qed.
+
+  Lemma split_map : split F g n = map hfrag (seq 0 (Z.to_nat M)).
+  Proof.
+    rewrite (split_pieces F F_pos g n Ht). fold M. rewrite pieces_map. apply map_ext. intros j.
+    unfold hfrag. rewrite Z.add_0_l. reflexivity.
+  Qed.
+
+  Lemma hfrag_pos j : (j < Z.to_nat M)%nat -> pos (hfrag j) = Z.of_nat j.
+  Proof.
+    intros Hj. unfold pos, hfrag, mkfrag, set_pos. cbn [p_flags f_pos]. apply u16_small. unfold M in *. lia.
+  Qed.
+
+  Lemma hfrag_props j :
+    p_dev (hfrag j) = self /\ MvRefresh <= p_id (hfrag j) /\ has_multi (p_flags (hfrag j)) = false /\
+    has_frag (p_flags (hfrag j)) = true /\ f_len (p_flags (hfrag j)) = M /\ f_group (p_flags (hfrag j)) = g /\
+    f_bits (p_flags (hfrag j)) = B /\ p_id (hfrag j) = p_id n /\ p_job (hfrag j) = p_job n.
+  Proof.
+    destruct Haddr as (Hd & _ & Hid & Hmu). pose proof M_ge2.
+    unfold hfrag, mkfrag, set_pos, set_len, set_group, has_multi, has_frag.
+    cbn [p_dev p_id p_job p_flags f_len f_group f_bits f_pos].
+    repeat split; try assumption.
+    - rewrite !lor1_bitk by lia. exact Hmu.
+    - apply lor1_bit0.
+    - apply u16_small. unfold M in *. lia.
+  Qed.
+
+  Lemma sorted_map_seq : forall k a, (a + k <= Z.to_nat M)%nat -> StronglySorted le_pos (map hfrag (seq a k)).
+  Proof.
+    induction k as [|k IH]; intros a Ha; cbn [seq map]; constructor.
+    - apply IH. lia.
+    - apply Forall_forall. intros x Hx. apply in_map_iff in Hx. destruct Hx as (j & <- & Hj).
+      apply in_seq in Hj. unfold le_pos. rewrite !hfrag_pos by lia. lia.
+  Qed.
+
+  Lemma concat_stored (l : list (packet A)) : concat (map p_data (stored l)) = concat (map p_data l).
+  Proof.
+    unfold stored, nonempty. induction l as [|x r IH]; cbn [filter map concat]; [reflexivity|].
+    destruct (p_data x) eqn:E; cbn [is_nil negb map concat]; rewrite ?E, IH; reflexivity.
+  Qed.
+
+  (* receive() of the reassembled packet hands it to the handler *)
+  Lemma recv_reassembled k (st : state A) : recv_f (S k) self st (reassembled n) = (st, ODeliver (reassembled n)).
+  Proof.
+    destruct Haddr as (Hd & Hself & Hid & Hmu). unfold MvRefresh in Hid.
+    rewrite recv_f_S. unfold reassembled at 1 2 3 4 5 6 7 8 9.
+    cbn [p_dev p_id p_flags p_data].
+    rewrite Hd. replace (self =? 0) with false by lia. unfold is_nop. cbn [p_id].
+    replace (p_id n <? 2) with false by lia. cbn [andb orb].
+    rewrite Z.eqb_refl. cbn [negb]. rewrite andb_false_r.
+    unfold SvComplete. replace (p_id n =? 4) with false by lia. cbn [andb].
+    unfold has_multi, has_frag. cbn [f_bits].
+    rewrite !Z.lxor_spec, !Z.lor_spec, !testbit_1. cbn [Z.eqb orb xorb].
+    rewrite orb_false_r, xorb_false_r. unfold has_multi in Hmu. rewrite Hmu. rewrite orb_true_r. cbn [xorb].
+    unfold recv_single. change (p_id (reassembled n)) with (p_id n). cbn [p_id].
+    unfold SvResync, SvRegister, SvShutdown, SvComplete, MvRefresh.
+    replace (p_id n =? 1) with false by lia. replace (p_id n =? 3) with false by lia.
+    replace (p_id n =? 5) with false by lia. replace (p_id n =? 4) with false by lia.
+    replace (p_id n <? 7) with false by lia. cbn [orb andb]. reflexivity.
+  Qed.
+
+  Let K' : nat := (Z.to_nat M - 1)%nat.
+  Let f0 := hfrag 0.
+  Let rest := map hfrag (seq 1 K').
+
+  Lemma split_cons : split F g n = f0 :: rest.
+  Proof.
+    rewrite split_map. pose proof M_ge2. replace (Z.to_nat M) with (S K') by (unfold K'; lia). reflexivity.
+  Qed.
+
+  Lemma in_split_hfrag x : In x (f0 :: rest) -> exists j, x = hfrag j /\ (j < Z.to_nat M)%nat.
+  Proof.
+    rewrite <- split_cons, split_map. intros Hx. apply in_map_iff in Hx. destruct Hx as (j & <- & Hj).
+    apply in_seq in Hj. exists j. split; [reflexivity | lia].
+  Qed.
+
+  Lemma f0_data : is_nil (p_data f0) = false.
+  Proof.
+    apply is_nil_false_len. unfold f0, hfrag, mkfrag. cbn [p_data Z.of_nat]. rewrite Z.mul_0_l, drop_0.
+    pose proof F_pos. pose proof data_nonempty. rewrite len_take by lia. lia.
+  Qed.
+
+  Lemma V_is_reassembled :
+    with_flags (fclear (p_flags (join f0 (stored rest)))) (join f0 (stored rest)) = reassembled n.
+  Proof.
+    rewrite (join_all f0 (stored rest) B).
+    2:{ apply Forall_forall. intros x Hx. unfold stored in Hx. apply filter_In in Hx. destruct Hx as [Hx Hne].
+        destruct (in_split_hfrag x (or_intror Hx)) as (j & -> & _).
+        destruct (hfrag_props j) as (_ & _ & _ & _ & _ & _ & HB & Hi & _).
+        unfold nonempty in Hne. apply negb_true_iff in Hne. repeat split; auto. }
+    2:{ destruct (hfrag_props 0%nat) as (_ & _ & _ & _ & _ & _ & HB & _). exact HB. }
+    unfold with_flags, fclear, reassembled. cbn [p_id p_job p_dev p_flags p_tags p_data f_bits].
+    assert (p_data f0 ++ concat (map p_data (stored rest)) = p_data n) as ->.
+    { change (p_data f0 ++ concat (map p_data (stored rest))) with (concat (map p_data (f0 :: stored rest))).
+      rewrite <- (stored_head f0 f0_data). rewrite concat_stored. rewrite <- split_cons.
+      apply (split_concat F F_pos g n Ht). }
+    unfold B. rewrite !lor1_idem. reflexivity.
+  Qed.
+
+  Theorem reassemble_any_order (evs : list (ev A)) (st0 : state A) :
+    wf st0 -> lookup g st0 = None ->
+    Permutation (own_pkts g evs) (split F g n) ->
+    hd_error (own_pkts g evs) = hd_error (split F g n) ->
+    paced g evs = true ->
+    lookup g (fst (run self st0 evs)) = None /\
+    own_outs g evs (snd (run self st0 evs)) = repeat ONone (Z.to_nat (nfrag F n - 1)) ++ [ODeliver (reassembled n)].
+  Proof.
+    rewrite split_cons. cbn [hd_error]. intros Hwf L HP Hhd Hpaced. fold M.
+    pose proof M_ge2 as HM2.
+    apply (run_reassembles g M self (p_id n) (p_job n) B f0 rest (reassembled n)); try assumption.
+    - unfold M in *; lia.
+    - rewrite <- split_cons. apply (split_length F F_pos g n Ht).
+    - destruct Haddr as (_ & Hself & _). exact Hself.
+    - apply Forall_forall. intros x Hx. destruct (in_split_hfrag x Hx) as (j & -> & _). apply hfrag_props.
+    - rewrite <- split_cons, split_map. apply sorted_map_seq. lia.
+    - intros x y Hx Hy. destruct (in_split_hfrag x Hx) as (i & -> & Hi). destruct (in_split_hfrag y Hy) as (j & -> & Hj).
+      rewrite !hfrag_pos by assumption. intros E. replace j with i by lia. reflexivity.
+    - change (pos f0 = 0). unfold f0. rewrite hfrag_pos by lia. reflexivity.
+    - exact f0_data.
+    - intros st. rewrite V_is_reassembled. apply recv_reassembled.
+  Qed.
+End Concrete.
+
+(* ---- a group with a missing fragment, stated for the split ----------------------------------- *)
+Section MissingSplit.
+  Context {A : Type}.
+  Variables (F g self : Z) (n : packet A).
+  Hypothesis HF : 0 < F.
+  Hypothesis Ht : 0 <= p_tags n.
+  Hypothesis Hs : F < size n.
+  Hypothesis HM : nfrag F n <= 65535.
+
+  Lemma nfrag_ge2 : 2 <= nfrag F n.
+  Proof. unfold nfrag. assert (1 <= size n / F) by (apply Z.div_le_lower_bound; lia). lia. Qed.
+
+  Lemma below_of_absent (st : state A) : lookup g st = None -> below g 0 st.
+  Proof.
+    intros L. apply Forall_forall. intros [k c] Hin Hk. cbn [fst] in Hk. subst k. exfalso.
+    apply lookup_none_notin in L. apply L. apply in_map_iff. exists (g, c). auto.
+  Qed.
+
+  Theorem missing_delivers_nothing (evs : list (ev A)) (st0 : state A) :
+    lookup g st0 = None ->
+    Forall (fun p => In p (split F g n)) (own_pkts g evs) ->
+    len (own_pkts g evs) < nfrag F n ->
+    Forall (fun o => is_deliver o = false) (own_outs g evs (snd (run self st0 evs))).
+  Proof.
+    intros L Hin Hlt. pose proof nfrag_ge2.
+    apply (missing_run g (nfrag F n) self) with (cnt := 0); try lia.
+    - now apply below_of_absent.
+    - eapply Forall_impl; [|exact Hin]. cbv beta. intros p Hp.
+      pose proof (split_each F HF g n Ht) as He. rewrite Forall_forall in He.
+      destruct (He p Hp) as (_ & _ & _ & _ & _ & _ & Hl & Hfr). split; [|exact Hfr].
+      rewrite Hl. apply u16_small. lia.
+  Qed.
+
+  (* "some fragment never arrives": the arrivals are a duplicate-free strict subset of the fragments *)
+  Theorem strict_subset_delivers_nothing (evs : list (ev A)) (st0 : state A) :
+    lookup g st0 = None ->
+    NoDup (own_pkts g evs) -> incl (own_pkts g evs) (split F g n) ->
+    (exists f, In f (split F g n) /\ ~ In f (own_pkts g evs)) ->
+    Forall (fun o => is_deliver o = false) (own_outs g evs (snd (run self st0 evs))).
+  Proof.
+    intros L Hnd Hincl (f & Hf & Hnf). apply missing_delivers_nothing; auto.
+    - apply Forall_forall. exact Hincl.
+    - pose proof (split_length F HF g n Ht) as Hlen.
+      pose proof (NoDup_incl_length Hnd Hincl) as Hle.
+      destruct (Nat.eq_dec (length (own_pkts g evs)) (length (split F g n))) as [E|E].
+      + exfalso. apply Hnf.
+        assert (incl (split F g n) (own_pkts g evs)) as Hrev by (apply NoDup_length_incl; [exact Hnd | lia | exact Hincl]).
+        apply Hrev, Hf.
+      + unfold len in *. lia.
+  Qed.
+End MissingSplit.
+
+(* ---- the wake-up sweep ------------------------------------------------------------------------- *)
+Section Sweep.
+  Context {A : Type}.
+  Definition bounded (k : Z) (st : state A) : Prop := Forall (fun kc : Z * cluster A => 1 <= c_c (snd kc) <= k) st.
+
+  Lemma counters_ok_bounded (st : state A) : counters_ok st <-> bounded fragMaxMisses st.
+  Proof. reflexivity. Qed.
+
+  Lemma sweep_bounded k (st : state A) : 0 <= k < 255 -> bounded (k + 1) st -> bounded k (sweep st).
+  Proof.
+    intros Hk. unfold bounded. induction st as [|[g c] r IH]; cbn [sweep]; intros H; [constructor|].
+    inversion H as [|? ? Hc Hr]; subst. cbn [snd] in Hc. rewrite u8_small by lia.
+    destruct (Z.eqb_spec (c_c c - 1) 0); [now apply IH|].
+    constructor; [cbn [snd c_c]; lia | now apply IH].
+  Qed.
+  Lemma bounded_mono k k' (st : state A) : k <= k' -> bounded k st -> bounded k' st.
+  Proof. intros Hle H. eapply Forall_impl; [|exact H]. cbv beta. intros; lia. Qed.
+  Lemma bounded_0 (st : state A) : bounded 0 st -> st = [].
+  Proof. destruct st; [reflexivity|]. intros H. inversion H; subst. lia. Qed.
+
+  Lemma iter_succ_r' {X} (f : X -> X) : forall k x, Nat.iter (S k) f x = Nat.iter k f (f x).
+  Proof. induction k as [|k IH]; intros x; [reflexivity|]. change (Nat.iter (S (S k)) f x) with (f (Nat.iter (S k) f x)). rewrite IH. reflexivity. Qed.
+
+  Lemma iter_sweep : forall (k : nat) (st : state A), Z.of_nat k < 255 -> bounded (Z.of_nat k) st -> Nat.iter k sweep st = [].
+  Proof.
+    induction k as [|k IH]; intros st Hk Hb.
+    - cbn [Nat.iter]. now apply bounded_0.
+    - rewrite iter_succ_r'. apply IH; [lia|]. apply sweep_bounded; [lia|].
+      replace (Z.of_nat k + 1) with (Z.of_nat (S k)) by lia. exact Hb.
+  Qed.
+
+  (* what one call of receive() can put into the table: nothing, or a cluster that was just touched
+     (counter fragMaxMisses) or that was there before *)
+  Lemma frag_step_counter (oc : option (cluster A)) p oc' fo : frag_step oc p = (oc', fo) ->
+    match oc' with None => True | Some c' => c_c c' = fragMaxMisses \/ oc = Some c' end.
+  Proof.
+    unfold frag_step.
+    assert (forall c, match cl_add c p with
+              | Ok c' => match cl_done c' with Some v => (None, FAgain v) | None => (Some c', FNone) end
+              | Err e => (Some c, FErr e)
+              | Panic => (Some c, FErr ErrUnmodelled)
+              end = (oc', fo) ->
+              (is_nil (c_data c) = true \/ oc = Some c) ->
+              match oc' with None => True | Some c' => c_c c' = fragMaxMisses \/ oc = Some c' end) as Hgo.
+    { intros c. unfold cl_add. intros H Hc.
+      destruct (c_data c) as [|d0 dr] eqn:Ed.
+      - destruct (is_nil (p_data p));
+          match type of H with context [cl_done ?x] => destruct (cl_done x) end; inversion H; subst; auto.
+      - destruct Hc as [Hc|Hc]; [discriminate|].
+        destruct (negb (belongs d0 p)); [inversion H; subst; auto|].
+        destruct (is_nil (p_data p));
+          match type of H with context [cl_done ?x] => destruct (cl_done x) end; inversion H; subst; auto. }
+    destruct oc as [c|].
+    - intros H. apply (Hgo c H). now right.
+    - destruct (0 <? f_pos (p_flags p)); [intros H; inversion H; subst; exact I|].
+      intros H. apply (Hgo _ H). now left.
+  Qed.
+
+  Lemma bounded_remove k g (st : state A) : bounded k st -> bounded k (remove g st).
+  Proof.
+    unfold bounded, remove. intros H. apply Forall_forall. intros x Hx. apply filter_In in Hx.
+    rewrite Forall_forall in H. apply H, Hx.
+  Qed.
+
+  Lemma counters_recv_f : forall k self (st : state A) p, counters_ok st -> counters_ok (fst (recv_f k self st p)).
+  Proof.
+    intros k self st p H. destruct k; [exact H|]. rewrite recv_f_S. cbv zeta.
+    repeat match goal with |- context [if ?b then _ else _] => destruct b end; try exact H.
+    - rewrite recv_f_len0 by reflexivity. exact H.
+    - destruct (frag_step (lookup (f_group (p_flags p)) st) p) as [oc fo] eqn:E.
+      assert (counters_ok (set (f_group (p_flags p)) oc st)) as H'.
+      { pose proof (frag_step_counter _ _ _ _ E) as Hc. destruct oc as [c'|]; cbn [set].
+        - constructor; [|now apply bounded_remove]. cbn [snd]. destruct Hc as [->|Hc]; [unfold fragMaxMisses; lia|].
+          apply lookup_some_in in Hc. unfold counters_ok in H. rewrite Forall_forall in H. apply (H _ Hc).
+        - now apply bounded_remove. }
+      destruct fo; try exact H'.
+      rewrite recv_f_len0; [exact H' | eapply frag_step_again; eauto].
+  Qed.
+
+  Lemma counters_run : forall self (evs : list (ev A)) (st : state A), counters_ok st -> counters_ok (fst (run self st evs)).
+  Proof.
+    induction evs as [|[p|] r IH]; intros st H; [exact H| |].
+    - rewrite run_cons_pkt. cbn [fst]. apply IH. now apply counters_recv_f.
+    - rewrite run_cons_sweep. cbn [fst]. apply IH.
+      apply (bounded_mono 4); [unfold fragMaxMisses; lia|]. apply sweep_bounded; [lia|]. exact H.
+  Qed.
+
+  (* after any history, fragMaxMisses wake-ups without traffic leave no reassembly state *)
+  Theorem sweep_removes_stale self (evs : list (ev A)) (st0 : state A) :
+    counters_ok st0 -> Nat.iter 5 sweep (fst (run self st0 evs)) = [].
+  Proof. intros H. apply iter_sweep; [cbn; lia|]. apply (counters_run self evs st0 H). Qed.
+
+  (* and a single cluster disappears exactly when its counter is used up *)
+  Theorem sweep_counts_down g (st : state A) c : wf st -> lookup g st = Some c -> 2 <= c_c c <= 256 ->
+    lookup g (sweep st) = Some (mkCluster (c_max c) (c_e c) (c_c c - 1) (c_data c)).
+  Proof.
+    intros Hwf L Hc. rewrite (lookup_sweep_some g st c Hwf L). rewrite u8_small by lia.
+    replace (c_c c - 1 =? 0) with false by lia. reflexivity.
+  Qed.
+  Theorem sweep_removes_last g (st : state A) c : wf st -> lookup g st = Some c -> c_c c = 1 -> lookup g (sweep st) = None.
+  Proof. intros Hwf L Hc. rewrite (lookup_sweep_some g st c Hwf L), Hc. reflexivity. Qed.
+End Sweep.
+
+(* ---- concrete histories: non-vacuity and the refuted full statements ---------------------------- *)
+Module Ex.
+  (* F = 60: a 100-byte packet (Size 147) becomes 3 fragments of 60, 40 and 0 bytes; a 70-byte packet
+     (Size 117) of another group becomes 2 fragments *)
+  Definition F : Z := 60.
+  Definition nA : packet Z := mkPacket 9 77 1 (mkFlags 0 0 0 4) 0 (gen 100 0).
+  Definition nB : packet Z := mkPacket 8 78 1 (mkFlags 0 0 0 0) 0 (gen 70 5).
+  Definition gA : Z := 111.
+  Definition gB : Z := 222.
+  Definition a (k : nat) : ev Z := EvPkt (nth k (split F gA nA) nA).
+  Definition b (k : nat) : ev Z := EvPkt (nth k (split F gB nB) nB).
+  Definition w : ev Z := @EvSweep Z.
+  (* position 0 first, then the EMPTY last fragment, then the middle one; fragments of B and wake-ups in between *)
+  Definition evs_ok : list (ev Z) := [a 0; w; b 0; a 2; w; b 1; w; a 1].
+  (* the first arrival is position 1 *)
+  Definition evs_pos1_first : list (ev Z) := [a 1; a 0; a 2].
+  (* five wake-ups between two fragments of A *)
+  Definition evs_idle5 : list (ev Z) := [a 0; w; b 0; w; w; w; b 1; w; a 1; a 2].
+
+  Lemma hyps_ok :
+    HeaderSize <= F /\ 0 <= p_tags nA /\ F < size nA /\ nfrag F nA = 3 /\ addressed 1 nA /\
+    map (fun f => len (p_data f)) (split F gA nA) = [60; 40; 0] /\
+    Permutation (own_pkts gA evs_ok) (split F gA nA) /\ own_pkts gA evs_ok <> split F gA nA /\
+    hd_error (own_pkts gA evs_ok) = hd_error (split F gA nA) /\ paced gA evs_ok = true.
+  Proof.
+    split; [vm_compute; discriminate|]. split; [vm_compute; discriminate|].
+    split; [vm_compute; reflexivity|]. split; [vm_compute; reflexivity|].
+    split; [repeat split; vm_compute; (reflexivity || discriminate)|].
+    split; [vm_compute; reflexivity|].
+    split; [vm_compute; apply perm_skip; apply perm_swap|].
+    split; [vm_compute; discriminate|].
+    split; vm_compute; reflexivity.
+  Qed.
+
+  Lemma outcome_ok :
+    run 1 [] evs_ok = ([], [ONone; ONone; ONone; ONone; ONone; ODeliver (reassembled nB); ONone; ODeliver (reassembled nA)]).
+  Proof. vm_compute. reflexivity. Qed.
+
+  Lemma pos1_first_lost :
+    Permutation (own_pkts gA evs_pos1_first) (split F gA nA) /\ paced gA evs_pos1_first = true /\
+    forallb (fun o => negb (is_deliver o)) (snd (run 1 [] evs_pos1_first)) = true.
+  Proof. repeat split; try (vm_compute; reflexivity). vm_compute. apply perm_swap. Qed.
+
+  Lemma idle5_lost :
+    own_pkts gA evs_idle5 = split F gA nA /\ paced gA evs_idle5 = false /\
+    own_outs gA evs_idle5 (snd (run 1 [] evs_idle5)) =
+      [ONone; ODrop (mkFlags 3 1 111 5) 1; ODrop (mkFlags 3 2 111 5) 1].
+  Proof. repeat split; vm_compute; reflexivity. Qed.
+
+  (* write(true, n) into a queue with 3 free slots: 5 fragments are built, 3 are queued, no error *)
+  Definition nC : packet Z := mkPacket 9 79 1 (mkFlags 0 0 0 0) 0 (gen 200 0).
+  Lemma overflow_drops :
+    nfrag F nC = 5 /\ fst (write F 128 true 1 125 7 nC) = 0 /\ len (snd (write F 128 true 1 125 7 nC)) = 3 /\
+    fst (write F 128 false 1 125 7 nC) = ErrFullBuffer.
+  Proof. repeat split; vm_compute; reflexivity. Qed.
+
+  (* a limit below the header size (no build has one): an empty packet is split into empty fragments only,
+     and a cluster without a stored fragment never completes *)
+  Definition nE : packet Z := mkPacket 9 80 1 (mkFlags 0 0 0 0) 0 [].
+  Lemma tiny_limit_lost :
+    nfrag 10 nE = 5 /\
+    forallb (fun o => negb (is_deliver o)) (snd (run 1 [] (map EvPkt (split 10 gA nE)))) = true.
+  Proof. split; vm_compute; reflexivity. Qed.
+End Ex.
+
+(* ---- the statements of Props/C02.v ---------------------------------------------------------------- *)
+Theorem thm_split_exact : forall (A : Type) (F g : Z) (n : packet A), 0 < F -> 0 <= p_tags n ->
+  len (split F g n) = nfrag F n /\
+  (forall i, 0 <= i < nfrag F n ->
+     nth_error (split F g n) (Z.to_nat i) = Some (mkfrag n g (nfrag F n) i (take F (drop (i * F) (p_data n))))) /\
+  concat (map p_data (split F g n)) = p_data n /\
+  Forall (fun f => len (p_data f) <= F /\ p_id f = p_id n /\ p_job f = p_job n /\ p_dev f = p_dev n /\
+                   p_tags f = 0 /\ f_group (p_flags f) = g /\ f_len (p_flags f) = u16 (nfrag F n) /\
+                   has_frag (p_flags f) = true) (split F g n) /\
+  (forall i, 0 <= i -> (is_nil (take F (drop (i * F) (p_data n))) = true <-> len (p_data n) <= i * F)) /\
+  (len (p_data n) + F - 1) / F <= nfrag F n.
+Proof.
+  intros A F g n HF Ht.
+  split; [now apply split_length|]. split; [intros; now apply split_nth|].
+  split; [now apply split_concat|]. split; [now apply split_each|].
+  split; [intros; now apply split_empty_iff | now apply frag_count_enough].
+Qed.
+
+Theorem thm_write_queues_split : forall (A : Type) (F cap : Z) (w : bool) (local qlen g : Z) (n : packet A),
+  0 < F -> 0 <= p_tags n -> F < size n ->
+  (w = true \/ qlen + (nfrag F n - 1) < cap) -> nfrag F n <= cap - qlen ->
+  write F cap w local qlen g n = (0, map (stamp local) (split F g n)).
+Proof. intros. now apply write_is_split. Qed.
+
+Theorem thm_reassemble_any_order : forall (A : Type) (F g self : Z) (n : packet A) (evs : list (ev A)) (st0 : state A),
+  HeaderSize <= F -> 0 <= p_tags n -> F < size n -> nfrag F n <= 65535 -> addressed self n ->
+  NoDup (map fst st0) -> lookup g st0 = None ->
+  Permutation (own_pkts g evs) (split F g n) ->
+  hd_error (own_pkts g evs) = hd_error (split F g n) ->
+  paced g evs = true ->
+  own_outs g evs (snd (run self st0 evs)) = repeat ONone (Z.to_nat (nfrag F n - 1)) ++ [ODeliver (reassembled n)] /\
+  lookup g (fst (run self st0 evs)) = None.
+Proof. intros. apply and_comm. now apply reassemble_any_order. Qed.
+
+Theorem thm_no_residue : forall (A : Type) (F g self : Z) (n : packet A) (evs : list (ev A)),
+  HeaderSize <= F -> 0 <= p_tags n -> F < size n -> nfrag F n <= 65535 -> addressed self n ->
+  Permutation (own_pkts g evs) (split F g n) ->
+  hd_error (own_pkts g evs) = hd_error (split F g n) ->
+  paced g evs = true ->
+  ~ In g (map fst (fst (run self [] evs))).
+Proof.
+  intros. apply lookup_none_notin.
+  apply (reassemble_any_order F g self n); auto. constructor.
+Qed.
+
+Theorem thm_missing_delivers_nothing : forall (A : Type) (F g self : Z) (n : packet A) (evs : list (ev A)) (st0 : state A),
+  0 < F -> 0 <= p_tags n -> F < size n -> nfrag F n <= 65535 ->
+  lookup g st0 = None ->
+  Forall (fun p => In p (split F g n)) (own_pkts g evs) ->
+  len (own_pkts g evs) < nfrag F n ->
+  Forall (fun o => is_deliver o = false) (own_outs g evs (snd (run self st0 evs))).
+Proof. intros. now apply (missing_delivers_nothing F g self n). Qed.
+
+Theorem thm_strict_subset_delivers_nothing : forall (A : Type) (F g self : Z) (n : packet A) (evs : list (ev A)) (st0 : state A),
+  0 < F -> 0 <= p_tags n -> F < size n -> nfrag F n <= 65535 ->
+  lookup g st0 = None ->
+  NoDup (own_pkts g evs) -> incl (own_pkts g evs) (split F g n) ->
+  (exists f, In f (split F g n) /\ ~ In f (own_pkts g evs)) ->
+  Forall (fun o => is_deliver o = false) (own_outs g evs (snd (run self st0 evs))).
+Proof. intros. now apply (strict_subset_delivers_nothing F g self n). Qed.
+
+Theorem thm_sweep_removes_stale : forall (A : Type) (self : Z) (evs : list (ev A)) (st0 : state A),
+  counters_ok st0 -> Nat.iter 5 sweep (fst (run self st0 evs)) = [].
+Proof. intros. now apply sweep_removes_stale. Qed.
+
+Theorem thm_sweep_from_empty : forall (A : Type) (self : Z) (evs : list (ev A)),
+  Nat.iter 5 sweep (fst (run self [] evs)) = [].
+Proof. intros. apply sweep_removes_stale. constructor. Qed.
+
+Theorem thm_sweep_counts_down : forall (A : Type) (g : Z) (st : state A) (c : cluster A),
+  NoDup (map fst st) -> lookup g st = Some c ->
+  (2 <= c_c c <= 256 -> lookup g (sweep st) = Some (mkCluster (c_max c) (c_e c) (c_c c - 1) (c_data c))) /\
+  (c_c c = 1 -> lookup g (sweep st) = None).
+Proof. intros. split; intros; [now apply sweep_counts_down | now apply (sweep_removes_last g st c)]. Qed.
+
+Theorem thm_reassemble_pos0_refuted : exists (F g self : Z) (n : packet Z) (evs : list (ev Z)),
+  HeaderSize <= F /\ 0 <= p_tags n /\ F < size n /\ nfrag F n <= 65535 /\ addressed self n /\
+  Permutation (own_pkts g evs) (split F g n) /\ paced g evs = true /\
+  forallb (fun o => negb (is_deliver o)) (snd (run self [] evs)) = true.
+Proof.
+  exists Ex.F, Ex.gA, 1, Ex.nA, Ex.evs_pos1_first.
+  destruct Ex.hyps_ok as (H1 & H2 & H3 & H4 & H5 & _). destruct Ex.pos1_first_lost as (P1 & P2 & P3).
+  repeat split; try assumption; try apply H5; try (rewrite H4; lia).
+Qed.
+
+Theorem thm_reassemble_pacing_refuted : exists (F g self : Z) (n : packet Z) (evs : list (ev Z)),
+  HeaderSize <= F /\ 0 <= p_tags n /\ F < size n /\ nfrag F n <= 65535 /\ addressed self n /\
+  own_pkts g evs = split F g n /\ paced g evs = false /\
+  forallb (fun o => negb (is_deliver o)) (own_outs g evs (snd (run self [] evs))) = true.
+Proof.
+  exists Ex.F, Ex.gA, 1, Ex.nA, Ex.evs_idle5.
+  destruct Ex.hyps_ok as (H1 & H2 & H3 & H4 & H5 & _). destruct Ex.idle5_lost as (P1 & P2 & P3).
+  repeat split; try assumption; try apply H5; try (rewrite H4; lia); try (rewrite P3; reflexivity).
+Qed.
+
+Theorem thm_split_fits_queue_refuted : exists (F cap local qlen g : Z) (n : packet Z),
+  0 < F /\ F < size n /\ qlen + nfrag F n > cap /\
+  fst (write F cap true local qlen g n) = 0 /\ len (snd (write F cap true local qlen g n)) < nfrag F n /\
+  fst (write F cap false local qlen g n) = ErrFullBuffer.
+Proof.
+  exists Ex.F, 128, 1, 125, 7, Ex.nC. destruct Ex.overflow_drops as (H1 & H2 & H3 & H4).
+  rewrite H1, H2, H3, H4. repeat split; vm_compute; (reflexivity || discriminate).
+Qed.
+
+Theorem thm_tiny_limit_refuted : exists (F g self : Z) (n : packet Z),
+  0 < F < HeaderSize /\ F < size n /\ addressed self n /\
+  forallb (fun o => negb (is_deliver o)) (snd (run self [] (map EvPkt (split F g n)))) = true.
+Proof.
+  exists 10, Ex.gA, 1, Ex.nE. destruct Ex.tiny_limit_lost as (_ & H).
+  split; [vm_compute; split; reflexivity|]. split; [vm_compute; reflexivity|].
+  split; [repeat split; vm_compute; (reflexivity || discriminate) | exact H].
+Qed.
+
+Theorem thm_nonvacuous :
+  (HeaderSize <= Ex.F /\ 0 <= p_tags Ex.nA /\ Ex.F < size Ex.nA /\ nfrag Ex.F Ex.nA = 3 /\ addressed 1 Ex.nA /\
+   map (fun f => len (p_data f)) (split Ex.F Ex.gA Ex.nA) = [60; 40; 0] /\
+   Permutation (own_pkts Ex.gA Ex.evs_ok) (split Ex.F Ex.gA Ex.nA) /\
+   own_pkts Ex.gA Ex.evs_ok <> split Ex.F Ex.gA Ex.nA /\
+   hd_error (own_pkts Ex.gA Ex.evs_ok) = hd_error (split Ex.F Ex.gA Ex.nA) /\ paced Ex.gA Ex.evs_ok = true) /\
+  run 1 [] Ex.evs_ok =
+    ([], [ONone; ONone; ONone; ONone; ONone; ODeliver (reassembled Ex.nB); ONone; ODeliver (reassembled Ex.nA)]).
+Proof. split; [exact Ex.hyps_ok | exact Ex.outcome_ok]. Qed.
